@@ -15,6 +15,7 @@ Ops (all byte strings hex, `-` = empty):
 * `cread <head> <body> <framing> <cuts> <c|k>`  raw server -> real client
 * `raw <s|p> <k> { <head> <body> <framing> <cuts> <plan> }*k`   raw client -> real server, k requests on one connection
 * `options <0|1>`                               1: OPTIONS requests reach the handler
+* `sockio w <body> <sched>` / `sockio r <body> <cuts> <size>`   Socket::write / Socket::read over a socketpair
 * `par ..` / `big ..`                           concurrency / very large bodies: judged by the property oracle; the
                                                 model prints the verdict the oracle requires (`ok <n>`).
 -/
@@ -331,6 +332,21 @@ def step (st : St) (ts : List String) : St × String :=
     match k.toNat? with
     | some k => (st, opRaw st (mode == "p") k rest)
     | none => (st, "bad-op")
+  | ["sockio", "w", b, sched] =>
+    match bodyOf b with
+    | some d =>
+      let (out, ret) := sockWrite (natList sched) d
+      (st, s!"{ret} {digest out}")
+    | none => (st, "bad-op")
+  | ["sockio", "r", b, cuts, size] =>
+    match bodyOf b, size.toNat? with
+    | some d, some n =>
+      -- the pieces the peer sends are the schedule of what each read() can return at most
+      let cs := cutsOf cuts d.length
+      let pieces := (cs.zip (0 :: cs)).map (fun (a, b) => a - b)
+      let (out, err) := sockRead pieces d n
+      (st, s!"{out.length} {digest out} {if err then 1 else 0}")
+    | _, _ => (st, "bad-op")
   | "par" :: n :: r :: _ =>
     match n.toNat?, r.toNat? with
     | some n, some r => (st, s!"ok {n * r}")
